@@ -4,6 +4,7 @@ import (
 	"fmt"
 	"hash/fnv"
 	"os"
+	"path/filepath"
 	"strings"
 
 	"verifharness/hx"
@@ -427,6 +428,13 @@ func (g *gen) randomEntry() {
 				default:
 					unopenable = 98 // local file header destroyed
 				}
+			}
+			// a symlink-bit entry with a trailing slash that names the destination itself passes Go's root test
+			// (fi.IsDir() is true for the slash) but not the model's (kind = symlink): an error without effect in both,
+			// except that Go's MkdirAll(Dir(root)) creates a missing parent of the destination first.  Documented
+			// (Props/C19.lean header), not generated.
+			if strings.HasSuffix(nm, "/") && filepath.Join("/r/dst", nm) == "/r/dst" {
+				nm = "x" + nm
 			}
 			g.entry("s", nm, 0o777, seed, unopenable, pres, tg)
 			g.note(nm, true)
